@@ -184,6 +184,11 @@ func newHost(cpuMap types.CPUMap, shareBase int, maxFragmentCores int) *host {
 
 func (h *host) getCPUPlans(cpuRequest float64) []types.CPUMap {
 	piecesRequest := int(math.Round(cpuRequest * float64(h.shareBase))) // nearest piece: int() alone turns 0.29*100 into 28
+	if piecesRequest <= 0 {
+		// a request below one piece cannot be bound to anything; without this guard
+		// full == 0 && fragment == 0 makes getFullCPUPlans loop forever (or divide by zero with affinity)
+		return []types.CPUMap{}
+	}
 	full := piecesRequest / h.shareBase
 	fragment := piecesRequest % h.shareBase
 
